@@ -21,7 +21,7 @@ T0S = [0.0, 0.1, 1.5, -2.0, 1e3]
 PI2 = math.pi / 2
 SINGLES = (
     [["const", m] for m in (1 / 3, 0.5, 0.999, 1, 1.001, 1.5, 2, 2.5, 3, 7 / 3, PI2, 10)]
-    + [["constnum", 1.25]]
+    + [["constnum", 1.25], ["const_abs", 1, 0.0], ["const_abs", 1.5, -1.0]]
     + [
         ["fixed", [1, 3]],
         ["fixed", [0.4, 2.7]],
